@@ -13,6 +13,7 @@ from typing import Any, Dict, FrozenSet, List, Optional, Sequence, Set, Tuple
 from .core import AnalysisError, Loc, Report, norm
 from .flow import Ctx, FlowWalker, State
 from .handlers import (FnRef, HandlerFacts, implementations, is_time_slice_routine, parent_map, stores)
+from .normalize import canon
 from .pyfront import ClassInfo, Program, body_without_docstring, dotted, param_names, self_attr
 
 
@@ -69,8 +70,11 @@ class Roles:
                                           for n in ast.walk(fn)):
                     self.slice_all.add(name)
                     changed = True
-        # register / commit: by the dictionary of pending non-leaf changes
-        for name, (owner, fn) in methods.items():
+        # register / commit: by the dictionary of pending non-leaf changes; judged on the canonical form of each method (its
+        # private helpers inlined), so that a routine split into helpers keeps its role
+        slicers = self.unit_slice | self.subtree_slice | self.slice_all
+        canonical = {name: canon(prog, cls, fn, exclude=slicers) for name, (owner, fn) in methods.items()}
+        for name, fn in canonical.items():
             ps = param_names(fn)
             attrs = {n.attr for n in ast.walk(fn) if isinstance(n, ast.Attribute)}
             sub_stores = [self_attr(t.value) for n in ast.walk(fn) if isinstance(n, ast.Assign) for t in n.targets
@@ -78,17 +82,51 @@ class Roles:
             if len(ps) == 2 and {"parent", "weight"} <= attrs and sub_stores:
                 self.register.add(name)
                 self.change_dict = sub_stores[0]
+        # a caller into which the register routine was inlined looks like one too: keep the innermost candidates
+        def self_calls(fn: ast.AST) -> Set[str]:
+            return {c.func.attr for c in ast.walk(fn) if isinstance(c, ast.Call) and isinstance(c.func, ast.Attribute)
+                    and isinstance(c.func.value, ast.Name) and c.func.value.id == "self"}
+        self.register = {n for n in self.register if not (self_calls(methods[n][1]) & (self.register - {n}))}
+        if self.register:
+            canonical = {name: canon(prog, cls, fn, exclude=slicers | self.register) for name, (owner, fn) in methods.items()}
         if self.change_dict:
-            for name, (owner, fn) in methods.items():
+            for name, fn in canonical.items():
                 ps = param_names(fn)
                 resets = [n for n in ast.walk(fn) if isinstance(n, ast.Assign) and len(n.targets) == 1
                           and self_attr(n.targets[0]) == self.change_dict and isinstance(n.value, ast.Dict)
                           and not n.value.keys]
                 if len(ps) == 0 and resets and name != "__init__":
                     self.commit.add(name)
+            self.commit = {n for n in self.commit if not (self_calls(methods[n][1]) & (self.commit - {n}))}
+            canonical = {name: canon(prog, cls, fn, exclude=slicers | self.register | self.commit) for name, (owner, fn) in methods.items()}
+            for name, fn in canonical.items():
+                ps = param_names(fn)
                 reads = [n for n in ast.walk(fn) if self_attr(n) == self.change_dict]
                 if len(ps) == 1 and reads and name not in self.register and any(f == "velocity" for _, f, *_ in stores(fn)):
                     self.commit_subtree.add(name)
+            self.commit_subtree = {n for n in self.commit_subtree if not (self_calls(methods[n][1]) & (self.commit_subtree - {n}))}
+            canonical = {name: canon(prog, cls, fn, exclude=slicers | self.register | self.commit | self.commit_subtree)
+                         for name, (owner, fn) in methods.items()}
+        self.canonical = canonical
+
+    def part_of(self, group: Set[str]) -> Set[str]:
+        """the routines of `group` together with the private helpers that are called from nowhere else"""
+        methods = self.prog.all_methods(self.cls)
+        callers: Dict[str, Set[str]] = {}
+        for name, (owner, fn) in methods.items():
+            for c in ast.walk(fn):
+                if isinstance(c, ast.Call) and isinstance(c.func, ast.Attribute) and isinstance(c.func.value, ast.Name) \
+                        and c.func.value.id == "self" and c.func.attr in methods:
+                    callers.setdefault(c.func.attr, set()).add(name)
+        out = set(group)
+        changed = True
+        while changed:
+            changed = False
+            for name in methods:
+                if name not in out and name.startswith("_") and callers.get(name) and callers[name] <= out | {name}:
+                    out.add(name)
+                    changed = True
+        return out
 
     def atomic(self) -> Set[str]:
         return self.store | self.unit_slice | self.subtree_slice | self.slice_all | self.register | self.commit | \
@@ -309,7 +347,12 @@ class HandlerProtocol:
                     # REG_OK = "no leaf velocity write since the last commit, or a register reached after/around it"
                     s.discard("REG_OK")
                 c = self.cnode_of(recv, fn)
-                if c is not None:
+                # a routine that registers through its own bookkeeping (the registered cnode is looked up, e.g.
+                # `self._leaf_cnodes[index]` from a dictionary filled earlier) pairs writes and registrations by data, not
+                # by block: only the path rule (a registration between write and commit) applies there
+                deferred = any(isinstance(n, ast.Call) and isinstance(n.func, ast.Attribute) and n.func.attr in self.roles.register
+                               and n.args and not isinstance(n.args[0], ast.Name) for n in ast.walk(fn))
+                if c is not None and not deferred:
                     regs = [n for st in block for n in ast.walk(st) if isinstance(n, ast.Call)
                             and isinstance(n.func, ast.Attribute) and n.func.attr in self.roles.register and n.args
                             and norm(n.args[0]) == c]
